@@ -128,6 +128,7 @@ func bufprop(r *simkit.Run, prop string) {
 			ex.bodyLen = rapid.IntRange(1<<20, 3<<20).Draw(rt, "req-len-mb")
 		}
 		ex.chunked = rapid.Bool().Draw(rt, "chunked")
+		ex.unframed = ex.chunked && rapid.IntRange(0, 3).Draw(rt, "undeclared-length-not-chunked") == 0
 		ex.reader = &faultyReader{data: makeBody(ex.bodyLen), failAt: -1}
 		for i, n := 0, rapid.IntRange(0, 4).Draw(rt, "read-chunks"); i < n; i++ {
 			ex.reader.chunks = append(ex.reader.chunks, rapid.SampledFrom([]int{1, 2, 7, 100, 511, 512, 513, 4096}).Draw(rt, "chunk"))
